@@ -22,8 +22,7 @@ package main
 
 import (
 	"fmt"
-	"go/ast"
-	"go/constant"
+	"go/token"
 	"math"
 	"math/big"
 	"regexp"
@@ -85,43 +84,61 @@ func checkC18(ctx *Ctx, r *Report, tier string) {
 	reNum := regexp.MustCompile(`^un([cf])_([0-9]+)_([0-9.]+)$`)
 	reFrac := regexp.MustCompile(`^un([cf])_([0-9_/]+)$`)
 	reNPT := regexp.MustCompile(`^npt_([0-9_/]+)$`)
-	ast.Inspect(fd.Body, func(n ast.Node) bool {
-		ce, ok := n.(*ast.CallExpr)
-		if !ok {
-			return true
-		}
-		sel, ok := ce.Fun.(*ast.SelectorExpr)
-		if !ok || len(ce.Args) != 4 {
-			return true
-		}
-		add := sel.Sel.Name
-		if add != "UTSAdd" && add != "ISOAdd" && add != "NPTAdd" {
-			return true
-		}
-		var name string
-		var v [3]float64
-		okc := true
-		if tv, ok := p.TypesInfo.Types[ce.Args[0]]; ok && tv.Value != nil && tv.Value.Kind() == constant.String {
-			name = constant.StringVal(tv.Value)
-		} else {
-			okc = false
-		}
-		for i := 0; i < 3; i++ {
-			tv, ok := p.TypesInfo.Types[ce.Args[i+1]]
-			if !ok || tv.Value == nil {
-				okc = false
+	// the rows: every call of an Add helper made while the database is built, with the values it
+	// receives (read from the symbolic execution of initThreadLookup: rows written as a sequence
+	// of calls or rolled into a loop over a local table are the same rows)
+	type dbRow struct {
+		add, name string
+		v         [3]float64
+		okc       bool
+		pos       token.Pos
+	}
+	var rows []dbRow
+	if ifn := ctx.ssaFunc("sdf", "initThreadLookup"); ifn != nil {
+		evr := newEval(ctx, "UTSAdd", "ISOAdd", "NPTAdd")
+		evr.budget = 400000
+		evr.evalRoot(ifn)
+		for _, e := range evr.Events {
+			add := ""
+			for _, a := range []string{"UTSAdd", "ISOAdd", "NPTAdd"} {
+				if strings.HasSuffix(e.Callee, ")."+a) {
+					add = a
+				}
+			}
+			if add == "" || len(e.Args) != 5 {
 				continue
 			}
-			v[i], _ = constant.Float64Val(tv.Value)
+			row := dbRow{add: add, okc: true, pos: e.Pos}
+			if t, ok := e.Args[1].(*Term); ok && t.Op == "a" && strings.HasPrefix(t.S, "\"") {
+				row.name, _ = strconv.Unquote(t.S)
+			} else {
+				row.okc = false
+			}
+			for i := 0; i < 3; i++ {
+				if t, ok := e.Args[i+2].(*Term); ok && t.IsConst() {
+					row.v[i], _ = t.C.Float64()
+				} else {
+					row.okc = false
+				}
+			}
+			rows = append(rows, row)
 		}
+		if evr.Exceeded {
+			r.undecided("H1", "initThreadLookup", ifn.Pos(), "evaluation budget exceeded")
+		}
+	}
+	_ = p
+	_ = fd
+	for _, row := range rows {
+		add, name, v, okc := row.add, row.name, row.v, row.okc
 		nRows++
 		key := "row[" + name + "]"
 		if !okc {
-			r.undecided("H1", fmt.Sprintf("row#%d", nRows), ce.Pos(), "row arguments are not compile-time constants")
-			return true
+			r.undecided("H1", fmt.Sprintf("row#%d", nRows), row.pos, "row arguments are not compile-time constants")
+			continue
 		}
 		if seen[name] {
-			r.check("H1", key+"|unique", ce.Pos(), false, "duplicate key: the later row silently replaces the earlier")
+			r.check("H1", key+"|unique", row.pos, false, "duplicate key: the later row silently replaces the earlier")
 		}
 		seen[name] = true
 		dia, second, ftof := v[0], v[1], v[2]
@@ -148,8 +165,8 @@ func checkC18(ctx *Ctx, r *Report, tier string) {
 			}
 			tpi, has := tbl[m[2]]
 			if !ok || !has {
-				r.undecided("H1", key, ce.Pos(), "size not in the checker's UNC/UNF series table")
-				return true
+				r.undecided("H1", key, row.pos, "size not in the checker's UNC/UNF series table")
+				continue
 			}
 			wantDia, wantSecond = d, tpi
 			wantAdd, what = "UTSAdd", "fractional unified size and its series TPI"
@@ -157,19 +174,18 @@ func checkC18(ctx *Ctx, r *Report, tier string) {
 			m := reNPT.FindStringSubmatch(name)
 			std, has := nptStd[m[1]]
 			if !has {
-				r.undecided("H1", key, ce.Pos(), "size not in the checker's NPT table")
-				return true
+				r.undecided("H1", key, row.pos, "size not in the checker's NPT table")
+				continue
 			}
 			wantDia, wantSecond = std[0], std[1]
 			wantAdd, what = "NPTAdd", "NPT outside diameter and TPI (ASME B1.20.1)"
 		default:
-			r.undecided("H1", key, ce.Pos(), "designation does not follow a known scheme")
-			return true
+			r.undecided("H1", key, row.pos, "designation does not follow a known scheme")
+			continue
 		}
 		ok2 := near(dia, wantDia) && near(second, wantSecond) && add == wantAdd && ftof > 0
-		r.check("H1", key, ce.Pos(), ok2, fmt.Sprintf("%s: %s(%g, %g, hex %g); the designation means (%g, %g) via %s", what, add, dia, second, ftof, wantDia, wantSecond, wantAdd))
-		return true
-	})
+		r.check("H1", key, row.pos, ok2, fmt.Sprintf("%s: %s(%g, %g, hex %g); the designation means (%g, %g) via %s", what, add, dia, second, ftof, wantDia, wantSecond, wantAdd))
+	}
 	r.Counts["database_rows"] = nRows
 	r.floor("H1", 82)
 
@@ -415,6 +431,28 @@ func evalFloat(v Val, env map[string]float64) (float64, bool) {
 	case "conv":
 		return evalFloat(t.Args[0], env)
 	case "call":
+		if len(t.Args) == 2 {
+			x, ok1 := evalFloat(t.Args[0], env)
+			y, ok2 := evalFloat(t.Args[1], env)
+			if !ok1 || !ok2 {
+				return 0, false
+			}
+			switch t.S {
+			case "math.Max":
+				return math.Max(x, y), true
+			case "math.Min":
+				return math.Min(x, y), true
+			case "math.Mod":
+				return math.Mod(x, y), true
+			case "math.Atan2":
+				return math.Atan2(x, y), true
+			case "intdiv":
+				if y != 0 {
+					return math.Trunc(x / y), true
+				}
+			}
+			return 0, false
+		}
 		if len(t.Args) == 1 {
 			x, ok := evalFloat(t.Args[0], env)
 			if !ok {
